@@ -26,9 +26,21 @@ FUNCTIONS = ['uxarray.grid.grid.Grid.get_ball_tree',
     'uxarray.grid.neighbors._prepare_xy_for_query@minkowski,rad,rank2',
     'uxarray.grid.neighbors._prepare_xy_for_query@minkowski,rad,rank1',
     'uxarray.grid.neighbors._prepare_xy_for_query@minkowski,deg,rank2',
-    'uxarray.grid.neighbors._prepare_xy_for_query@minkowski,deg,rank1']
+    'uxarray.grid.neighbors._prepare_xy_for_query@minkowski,deg,rank1',
+    'uxarray.grid.neighbors.BallTree._build_from_nodes@built;spherical',
+    'uxarray.grid.neighbors.BallTree._build_from_nodes@built;cartesian',
+    'uxarray.grid.neighbors.BallTree._build_from_face_centers@built;spherical',
+    'uxarray.grid.neighbors.BallTree._build_from_face_centers@built;cartesian',
+    'uxarray.grid.neighbors.BallTree._build_from_edge_centers@built;spherical',
+    'uxarray.grid.neighbors.BallTree._build_from_edge_centers@built;cartesian',
+    'uxarray.grid.neighbors.KDTree._build_from_nodes@built;spherical',
+    'uxarray.grid.neighbors.KDTree._build_from_nodes@built;cartesian',
+    'uxarray.grid.neighbors.KDTree._build_from_face_centers@built;spherical',
+    'uxarray.grid.neighbors.KDTree._build_from_face_centers@built;cartesian',
+    'uxarray.grid.neighbors.KDTree._build_from_edge_centers@built;spherical',
+    'uxarray.grid.neighbors.KDTree._build_from_edge_centers@built;cartesian']
 STANDINS = ["neighbours"]
 ASSUMPTIONS = []
 EXPLANATION = ""
-LEVEL_TEXT = '_prepare_xy_for_query proved for both metrics, degrees / radians, single and batched points: the sklearn tree is asked with the points supplied, (lat, lon) for haversine and (lon, lat) otherwise, in radians, and the array of the caller is not written (np.flip / np.expand_dims modelled as views); get_ball_tree / get_kd_tree proved to hand back a tree whose element kind, coordinate system and metric are those of THIS call from every cache state; the coordinates setter proved to select / rebuild the tree of the requested kind; query (both classes, both coordinate systems) proved in dataflow form: the wrapped sklearn query gets the prepared points and the flags of the caller (sort_results in particular) on the tree of the element kind in force, indices come back unchanged (standard dtype, squeezed for one point), spherical distances in degrees unless radians were asked for; query_radius(count_only) proved to pass the radius in the unit the tree was built in (BallTree: degrees as documented; KDTree: unit of the query points); agreement with brute force bounded (sklearn assumed correct)'
+LEVEL_TEXT = 'the six tree builders of both classes proved in dataflow form (the sklearn tree of an element kind is built from the (latitude, longitude) columns in radians, or the (x, y, z) columns, of THAT kind of this grid, with this metric, no cast to the stored dtype); _prepare_xy_for_query proved for both metrics, degrees / radians, single and batched points: the sklearn tree is asked with the points supplied, (lat, lon) for haversine and (lon, lat) otherwise, in radians, and the array of the caller is not written (np.flip / np.expand_dims modelled as views); get_ball_tree / get_kd_tree proved to hand back a tree whose element kind, coordinate system and metric are those of THIS call from every cache state; the coordinates setter proved to select / rebuild the tree of the requested kind; query (both classes, both coordinate systems) proved in dataflow form: the wrapped sklearn query gets the prepared points and the flags of the caller (sort_results in particular) on the tree of the element kind in force, indices come back unchanged (standard dtype, squeezed for one point), spherical distances in degrees unless radians were asked for; query_radius(count_only) proved to pass the radius in the unit the tree was built in (BallTree: degrees as documented; KDTree: unit of the query points); agreement with brute force bounded (sklearn assumed correct)'
 LEVEL_NOTE = 'tree constructors as records of their arguments; tree.coordinates setter modelled; sklearn internals assumed'
